@@ -190,7 +190,12 @@ impl<R: Read> GenomeIO<R> {
             // Only keep characters > 64 (ASCII 'A' is 65)
             if c > 64 && (c as usize) < CNV_NUM.len() {
                 if converted {
-                    contig.push(CNV_NUM[c as usize]);
+                    // Letters outside the IUPAC set have no symbol in the archive format: the
+                    // table yields the out-of-range code 30, which the LZ text cannot carry as a
+                    // literal, so create accepted the input and wrote an archive that could not
+                    // be read back. They are documented to read back as N: store them as N.
+                    let code = CNV_NUM[c as usize];
+                    contig.push(if code < 16 { code } else { 4 });
                 } else {
                     contig.push(c);
                 }
